@@ -18,7 +18,7 @@ caller as such; it is never silently skipped).
 Usage: gen_tables.py <repo_root> <out_dir>      (exit 0 ok, 3 translate error)
 """
 from __future__ import annotations
-import ast, sys, os, json, hashlib
+import ast, sys, os, json, hashlib, re
 
 class TranslateError(Exception):
     pass
@@ -991,6 +991,94 @@ def gen_init_point(sc: ast.AST) -> str:
     return "\n".join(out) + "\n"
 
 
+
+def gen_dispatch(pb: ast.AST) -> str:
+    """`Problem._auto_select_method` and the dispatch of `Problem.solve`, translated statement by statement into
+    `Generated/Dispatch.lean` (`autoSelectG`, `routeG`); `Py.autoSelect` / `Py.route` are these functions."""
+    cls = next((n for n in ast.walk(pb) if isinstance(n, ast.ClassDef) and n.name == "Problem"), None)
+    if cls is None:
+        raise TranslateError("class Problem not found")
+    meth = {n.name: n for n in cls.body if isinstance(n, ast.FunctionDef)}
+    for nm in ("_auto_select_method", "solve"):
+        if nm not in meth:
+            raise TranslateError(f"Problem.{nm} not found")
+    body = [st for st in meth["_auto_select_method"].body
+            if not (isinstance(st, ast.Expr) and isinstance(st.value, ast.Constant)) and not isinstance(st, ast.ImportFrom)]
+
+    def robust_test(t, var):
+        # `<var> is None or <var> > k`
+        u = _u(t)
+        m = re.fullmatch(rf"{var} is None or {var} > (\d+)", u)
+        if not m:
+            raise TranslateError(f"_auto_select_method: degree test {u!r}")
+        return int(m.group(1))
+
+    if len(body) != 5:
+        raise TranslateError(f"_auto_select_method: {len(body)} statements: {[_u(x)[:50] for x in body]}")
+    s0, s1, s2, s3, s4 = body
+    if not (isinstance(s0, ast.If) and _u(s0.test) == "not self._constraints" and not s0.orelse and len(s0.body) == 1
+            and isinstance(s0.body[0], ast.Return)):
+        raise TranslateError(f"_auto_select_method: unconstrained branch {_u(s0)[:80]!r}")
+    m_unc = ast.literal_eval(s0.body[0].value)
+    if _u(s1) != "obj = self.objective":
+        raise TranslateError(f"_auto_select_method: {_u(s1)!r}")
+    if not (isinstance(s2, ast.If) and _u(s2.test) == "obj is not None" and not s2.orelse and len(s2.body) == 2
+            and _u(s2.body[0]) == "degree = compute_degree(obj)" and isinstance(s2.body[1], ast.If)
+            and not s2.body[1].orelse and len(s2.body[1].body) == 1 and isinstance(s2.body[1].body[0], ast.Return)):
+        raise TranslateError(f"_auto_select_method: objective block {_u(s2)[:120]!r}")
+    k_obj = robust_test(s2.body[1].test, "degree")
+    m_obj = ast.literal_eval(s2.body[1].body[0].value)
+    if not (isinstance(s3, ast.For) and _u(s3.target) == "c" and _u(s3.iter) == "self._constraints" and len(s3.body) == 2
+            and _u(s3.body[0]) == "c_degree = compute_degree(c.expr)" and isinstance(s3.body[1], ast.If)
+            and not s3.body[1].orelse and len(s3.body[1].body) == 1 and isinstance(s3.body[1].body[0], ast.Return)):
+        raise TranslateError(f"_auto_select_method: constraint loop {_u(s3)[:120]!r}")
+    k_con = robust_test(s3.body[1].test, "c_degree")
+    m_con = ast.literal_eval(s3.body[1].body[0].value)
+    if not isinstance(s4, ast.Return):
+        raise TranslateError("_auto_select_method: last statement")
+    m_def = ast.literal_eval(s4.value)
+    out = ["/-- `degree is None or degree > k` -/",
+           "def degreeAbove (k : Nat) (d : Option Nat) : Bool := match d with | none => true | some n => decide (n > k)",
+           "/-- `Problem._auto_select_method` (degrees of the objective and of the constraints, in order) -/",
+           "def autoSelectG (objDegree : Option Nat) (conDegrees : List (Option Nat)) : String :=",
+           f"  if conDegrees.isEmpty then {json.dumps(m_unc)}",
+           f"  else if degreeAbove {k_obj} objDegree then {json.dumps(m_obj)}",
+           f"  else if conDegrees.any (degreeAbove {k_con}) then {json.dumps(m_con)}",
+           f"  else {json.dumps(m_def)}"]
+    # ---- Problem.solve: the if-chain after the objective check
+    sb = [st for st in meth["solve"].body if isinstance(st, ast.If) and _u(st.test).startswith("method ")]
+    tests = [_u(st.test) for st in sb]
+    if tests != ["method == 'auto'", "method == 'linprog'", "method in ('highs', 'highs-ds', 'highs-ipm')"]:
+        raise TranslateError(f"Problem.solve: dispatch tests {tests}")
+    a = sb[0]
+    if not (len(a.body) == 1 and isinstance(a.body[0], ast.If) and _u(a.body[0].test) == "self._is_linear_problem()"
+            and _u(a.body[0].body[-1]) == "return solve_lp(self, strict=strict, **kwargs)"
+            and [_u(x) for x in a.body[0].orelse] == ["method = self._auto_select_method()"]):
+        raise TranslateError(f"Problem.solve: auto branch {_u(a)[:160]!r}")
+    if _u(sb[1].body[-1]) != "return solve_lp(self, strict=strict, **kwargs)":
+        raise TranslateError(f"Problem.solve: linprog branch {_u(sb[1].body[-1])!r}")
+    if _u(sb[2].body[-1]) != "return solve_lp(self, method=method, strict=strict, **kwargs)":
+        raise TranslateError(f"Problem.solve: highs branch {_u(sb[2].body[-1])!r}")
+    last = meth["solve"].body[-1]
+    if _u(last) != "return solve_scipy(self, method=method, strict=strict, **kwargs)":
+        raise TranslateError(f"Problem.solve: final statement {_u(last)!r}")
+    highs = list(ast.literal_eval(sb[2].test.comparators[0]))
+    out += ["inductive RouteG | lp (method : Option String) | nlp (method : String)",
+            "  deriving DecidableEq, Repr",
+            "/-- the dispatch of `Problem.solve` -/",
+            "def routeG (method : String) (isLinear : Bool) (objDegree : Option Nat) (conDegrees : List (Option Nat)) : RouteG :=",
+            "  if method == \"auto\" then",
+            "    if isLinear then .lp none else",
+            "      -- `method = self._auto_select_method()` falls through to the tests below",
+            "      let m := autoSelectG objDegree conDegrees",
+            "      if m == \"linprog\" then .lp none",
+            f"      else if {lean_str_list(highs)}.contains m then .lp (some m) else .nlp m",
+            "  else if method == \"linprog\" then .lp none",
+            f"  else if {lean_str_list(highs)}.contains method then .lp (some method)",
+            "  else .nlp method"]
+    return "\n".join(out) + "\n"
+
+
 HEADER = """/-
   GENERATED by harness/gen_tables.py from the optyx sources — do not edit.
   Regenerated before every build; the theorems that mention these definitions are
@@ -1033,6 +1121,9 @@ def main(repo: str, outdir: str, dry: bool = False) -> int:
         return (HEADER + "namespace Optyx.Generated\n\n" + gen_init_point(src("solvers/scipy_solver.py"))
                 + "\nend Optyx.Generated\n")
 
+    def f_dispatch():
+        return (HEADER + "namespace Optyx.Generated\n\n" + gen_dispatch(src("problem.py")) + "\nend Optyx.Generated\n")
+
     def f_glue():
         return (HEADER + "namespace Optyx.Generated\n\n" + gen_solver_glue(src("solvers/scipy_solver.py"))
                 + gen_make_constraint(src("constraints.py")) + gen_lp_glue(src("solvers/lp_solver.py"))
@@ -1040,7 +1131,7 @@ def main(repo: str, outdir: str, dry: bool = False) -> int:
 
     changed, errors, h = False, {}, hashlib.sha256()
     for fname, make in (("GradRules", f_rules), ("Tables", f_tables), ("Closures", f_closures), ("SolverGlue", f_glue),
-                        ("JacRow", f_jacrow), ("InitPoint", f_init)):
+                        ("JacRow", f_jacrow), ("InitPoint", f_init), ("Dispatch", f_dispatch)):
         path = os.path.join(outdir, fname + ".lean")
         try:
             text = make()
